@@ -42,7 +42,9 @@ theorem C08_refinement (C : Consts) (hstep : 0 < C.step) (sizes : Nat → Nat)
 
 /-- **C08 (quiescence: every call is answered).** In EVERY reachable state in which the server loop
     cannot make progress (`Server::run` would return `Pending`: nothing to accept, no receive ready, no
-    stream item to forward), nobody waits in the accept queue, no reply stream is open, and every
+    stream item to forward), nobody waits in the accept queue, no open reply stream has a result ready
+    (everything the service made available has been forwarded; a stream whose service has nothing to hand
+    over yet stays open and pending without holding anybody else up), and every
     well-behaved connection whose bytes have all arrived has had **all** its calls handled: nothing is
     left unread, and what it was sent is the sequential reference's answer to the whole script — each
     call answered exactly once, in order, oneway calls not at all. -/
@@ -50,7 +52,7 @@ theorem C08_quiescent (C : Consts) (hstep : 0 < C.step) (sizes : Nat → Nat)
     (evs : List Srv.Ev) (hev : Srv.EvsOK C sizes evs init)
     (hidle : iter C sizes (runEvs C sizes evs init) = none) :
     let s := runEvs C sizes evs init
-    s.listenQ = [] ∧ s.streams = [] ∧
+    s.listenQ = [] ∧ (∀ p ∈ s.streams, p.2.credit = 0) ∧
     ∀ c ∈ s.conns, c.good = true → c.fut = [] → c.calls = [] ∧ c.out = expectedOut c.descs := by
   have g := run_inv C hstep sizes evs init (ginv_init C) hev
   intro s
@@ -82,7 +84,7 @@ theorem C08_in_order (ds : List Desc) (d : Desc) : expectedOut (ds ++ [d]) = exp
 namespace Example
 def C : Consts := { step := 8, max := 1000 }
 def conn (id : Nat) (frames : List (List Byte)) (descs : List Desc) : Conn :=
-  { id := id, rx := Rx.init C, net := net0, calls := descs, out := [], wfail := none, nwrites := 0,
+  { id := id, rx := Rx.init C, net := net0, calls := descs, out := [], wfail := none, nwrites := 0, credit := 1000,
     good := true, frames := frames, descs := descs, fut := enc frames, k := 0 }
 def c0 : Conn := conn 0 [[1, 2], [3]] [.echo 7 false, .echo 8 true]
 def c1 : Conn := conn 1 [[9]] [.sub 2 0]
